@@ -1,6 +1,6 @@
 """C11 — curve look-ups follow each interpolation rule (two-point formulas, flat rules, adjacency, sorted before use)."""
 import re
-import cel, hir, cfg as cfgmod
+import cel, hir, paths, cfg as cfgmod
 from cel import Poly, Rec, Alt, Sym, Tup, Unsupported
 from fractions import Fraction as F
 
@@ -14,24 +14,12 @@ INTERP = {
 UT = "curves::interpolation::utils::"
 
 
-def neg_cond(c):
-    """not (d < 0) = (-d <= 0); not (d <= 0) = (-d < 0)"""
-    rel, dk = c.tag[1], c.tag[2]
-    d = cel.poly_from_key(dk)
-    if rel == "Lt":      # timestamps are integers: not (d < 0)  ==  -d - 1 < 0
-        return Sym("cmp", "Lt", (-d - Poly.const(1)).key())
-    return Sym("cmp", "Lt", (-d).key())
-
-
 def branches(v):
-    """{(condition key, value key)} of a two-way if on a numeric comparison, spelling-independent."""
-    if not (isinstance(v, Alt) and len(v.alts) == 2 and v.alts[0][0][0] == "if"):
+    """{(normalised condition literal, value key)} of a two-way if, spelling-independent."""
+    ps = paths.flatten(v)
+    if len(ps) != 2 or any(len(c) != 1 for c, _ in ps):
         return None
-    ck = v.alts[0][0][1]
-    if not (isinstance(ck, tuple) and ck[:2] == ("sym", "cmp") and ck[2] in ("Lt", "Le")):
-        return None
-    c = Sym("cmp", ck[2], ck[3])
-    return {(cel.vkey(c), cel.vkey(v.alts[0][1])), (cel.vkey(neg_cond(c)), cel.vkey(v.alts[1][1]))}
+    return {(next(iter(c)), cel.vkey(x)) for c, x in ps}
 
 
 def run(ck, facts, tier):
@@ -129,11 +117,11 @@ def run(ck, facts, tier):
                 b = branches(got)
                 if what == "forward":
                     c = cel.cmp_sym("Ge", Poly.atom("x"), K(i1), True)    # x >= x2 (i64 timestamps)
-                    want = {(cel.vkey(c), cel.vkey(Sym("ctor", variant, V(i1)))), (cel.vkey(neg_cond(c)), cel.vkey(Sym("ctor", variant, V(i0))))}
+                    want = {(paths.lit(c), cel.vkey(Sym("ctor", variant, V(i1)))), (paths.lit(c, False), cel.vkey(Sym("ctor", variant, V(i0))))}
                     desc = "right node's value iff x >= x2, else left's"
                 else:
                     c = cel.cmp_sym("Le", Poly.atom("x"), K(i0), True)    # x <= x1
-                    want = {(cel.vkey(c), cel.vkey(Sym("ctor", variant, V(i0)))), (cel.vkey(neg_cond(c)), cel.vkey(Sym("ctor", variant, V(i1))))}
+                    want = {(paths.lit(c), cel.vkey(Sym("ctor", variant, V(i0)))), (paths.lit(c, False), cel.vkey(Sym("ctor", variant, V(i1))))}
                     desc = "left node's value iff x <= x1, else right's"
                 ck.check(r2, key, b == want, "flat-%s rule is not: %s" % (what, desc), where, detail="got %s" % cel.vfmt(got)[:600], sample=desc)
     # node_index default body
@@ -215,7 +203,6 @@ def run(ck, facts, tier):
         except Unsupported as e:
             ck.fail(r5, "index_left[left_count=%s]" % lcname, "rule could not be established (%s)" % e, where)
             continue
-        import paths
         n = Poly.atom(("len", cel.vkey(L), None))
         split = Poly.atom(("idiv", (n - Poly.const(1)).key(), Poly.const(2).key()))
         at_split = Poly.atom(("call", "index", (cel.vkey(L), split.key())))
@@ -228,7 +215,7 @@ def run(ck, facts, tier):
         arm = lambda k: nc(("arm", k, n.key()))
         le = nc(("if", cel.vkey(Sym("cmp", "Le", cel.vkey(V), cel.vkey(at_split)))))
         nle = (le[0], not le[1])
-        short = Sym("and", *sorted([cel.vkey(cel.cmp_sym("Eq", n, Poly.const(3))), cel.vkey(Sym("cmp", "Eq", cel.vkey(V), cel.vkey(at_split)))], key=repr))
+        short = Sym("and", *sorted([cel.vkey(cel.cmp_sym("Eq", n, Poly.const(3))), cel.vkey(cel.eq_sym(V, at_split))], key=repr))
         sc, nsc = nc(("if", cel.vkey(short))), nc(("not", ("if", cel.vkey(short))))
         base = {(frozenset([arm("1")]), cel.vkey(Sym("diverges", "panic"))), (frozenset([arm("2")]), lc.key())}
         want_a = base | {(frozenset([arm("_"), sc]), lc.key()), (frozenset([arm("_"), nsc, le]), cel.vkey(rec1)), (frozenset([arm("_"), nsc, nle]), cel.vkey(rec2))}
